@@ -20,6 +20,20 @@ def with_tagged(classes):
     if v is None or isinstance(v, (bytes, list)): return classes
     return classes + [("tag1", G(1, v), False), ("tag24", G(24, v), False), ("tag55799", G(55799, v), False)]
 
+import tables
+def retable(classes, reg, names, with_private=False, reserved=()):
+    """validity of integer-valued classes follows the registries the crate has now"""
+    out = []
+    for name, v, ok in classes:
+        if name not in names:
+            pass
+        elif isinstance(v, tuple) and v[0] == 'i':
+            ok = tables.acceptable(reg, v[1], with_private) and v[1] not in reserved and -2**63 <= v[1] < 2**63
+        elif isinstance(v, tuple) and v[0] == 'a' and v[1] and all(x[0] in ('i', 't') for x in v[1]) and name not in ("adjdup", "farDup", "textdup"):
+            ok = all(x[0] == 't' or tables.acceptable(reg, x[1], with_private) for x in v[1])
+        out.append((name, v, ok))
+    return out
+
 def class_rows(fields, others, rng):
     """fields: lists of (class name, value, valid?) (optional fields start with NONE); others: lists of plain values.
     Three arrays: all pairs of VALID classes (every row is acceptable: the accept side, field values and
@@ -224,10 +238,11 @@ def kdf_combo_cases(case, seed=1):
 def msg_combo_cases(case, seed=1):
     """every message structure: class of each slot x arity x nested list sizes, pairwise"""
     rng = random.Random("msg-combo/%d" % seed)
-    P = [("empty", B(b""), True), ("a0", B(b"\xa0"), True), ("alg", B(b"\xa1\x01\x26"), True), ("indef", B(b"\xbf\x04\x41\x01\xff"), True),
+    P = [("empty", B(b""), True), ("a0", B(b"\xa0"), True), ("alg", B(b"\xa1\x01\x26"), True), ("direct", B(b"\xa1\x01\x25"), True), ("indef", B(b"\xbf\x04\x41\x01\xff"), True),
          ("both-iv", B(b"\xa2\x05\x41\x01\x06\x41\x02"), False), ("dup", B(b"\xa2\x04\x41\x01\x04\x41\x02"), False), ("trailing", B(b"\xa0\xa0"), False),
          ("truncated", B(b"\xa1\x01"), False), ("notmap", B(b"\x01"), False), ("map", M(), False), ("text", T(""), False), ("nil", NULL, False)]
-    U = [("empty", M(), True), ("kid", M((I(4), B(b"k"))), True), ("extra", M((T("x"), I(1)), (I(33), A())), True), ("both-iv", M((I(6), B(b"\x01")), (I(5), B(b"\x02"))), False),
+    U = [("empty", M(), True), ("kid", M((I(4), B(b"k"))), True), ("direct", M((I(1), I(-6))), True), ("kw", M((I(1), I(-3)), (I(5), B(b"iv"))), True),
+         ("ecdh", M((I(1), I(-25)), (I(-1), M((I(1), I(2))))), True), ("extra", M((T("x"), I(1)), (I(33), A())), True), ("both-iv", M((I(6), B(b"\x01")), (I(5), B(b"\x02"))), False),
          ("dup", M((I(4), B(b"a")), (I(4), B(b"a"))), False), ("badalg", M((I(1), I(-65536))), False), ("bstr", B(b"\xa0"), False), ("arr", A(), False)]
     PL = [("bytes", B(b"pl"), True), ("empty", B(b""), True), ("nil", NULL, True), ("text", T("pl"), False), ("int", I(0), False)]
     BY = [("bytes", B(b"sg"), True), ("empty", B(b""), True), ("nil", NULL, False), ("text", T(""), False)]
@@ -369,3 +384,12 @@ def wide_inputs():
     out.append(("CoseKeySet", arr(m) + b"\xa1\x01\x04" * m))
     out.append(("CoseKey", mp(2) + b"\x01\x04\x04" + arr(k) + b"".join(b"\x64" + ("%04x" % i).encode() for i in range(k))))
     return out
+
+# ------------------------------------------------------------------ follow the current registries
+HDR_FIELD[1] = retable(HDR_FIELD[1], "Algorithm", ("reg", "reg0", "priv", "edge", "unreg"), True)
+HDR_FIELD[2] = retable(HDR_FIELD[2], "HeaderParameter", ("one", "three", "rep", "unreg", "neg"))
+HDR_FIELD[3] = retable(HDR_FIELD[3], "CoapContentFormat", ("int", "int0", "unreg"))
+KEY_FIELD[1] = retable(KEY_FIELD[1], "KeyType", ("okp", "ec2", "sym", "reserved", "unreg", "neg"), reserved=(0,))
+KEY_FIELD[3] = retable(KEY_FIELD[3], "Algorithm", ("reg", "priv", "edge", "unreg"), True)
+KEY_FIELD[4] = retable(KEY_FIELD[4], "KeyOperation", ("one", "two", "text", "unreg", "zero"))
+CLAIM_EXTRA = [(n, kv, (tables.acceptable("CwtClaimName", kv[0][1], True) and -2**63 <= kv[0][1] < 2**63) if kv[0][0] == 'i' else ok) for n, kv, ok in CLAIM_EXTRA]
